@@ -6,6 +6,7 @@ import copy
 import os
 import itertools
 import json
+import zlib
 
 from harness import core, project as P
 from harness.common import pmap
@@ -172,8 +173,14 @@ def public_durations(seq):
     return out
 
 
-def edit_in_turn(m):
-    """Order-preserving in-turn edit of the yielded message."""
+def edit_in_turn(m, view="rel", variant=0):
+    """In-turn edit of the yielded message: order-preserving, except that in every other group a non-note event of the
+    absolute view is moved later in time past its neighbours (the stored list is then out of time order until the library
+    sorts it; what the sequence describes is still well defined)."""
+    if view == "abs" and variant % 2 and m.message_type in (MessageType.TIME_SIGNATURE, MessageType.KEY_SIGNATURE,
+                                                            MessageType.CONTROL_CHANGE, MessageType.PROGRAM_CHANGE):
+        m.time = m.time + 30
+        return
     if m.message_type in (MessageType.NOTE_ON, MessageType.NOTE_OFF):
         m.note = m.note + 12 if m.note < 90 else m.note - 12
     elif m.message_type == MessageType.WAIT:
@@ -187,8 +194,8 @@ def edit_in_turn(m):
 class Runner:
     """Executes fine-grained steps on one object; keeps the suspended generator."""
 
-    def __init__(self, seq):
-        self.seq, self.gen, self.cur = seq, None, None
+    def __init__(self, seq, variant=0):
+        self.seq, self.gen, self.cur, self.variant = seq, None, None, variant
 
     def step(self, f):
         if f in ("iter_start_abs", "iter_start_rel"):
@@ -199,7 +206,7 @@ class Runner:
             self.cur = next(self.gen, None)
         elif f == "iter_edit":
             if self.cur is not None:
-                edit_in_turn(self.cur)
+                edit_in_turn(self.cur, self.view, self.variant)
         elif f == "iter_readother":
             _ = self.seq.rel if self.view == "abs" else self.seq.abs
         elif f == "iter_close":
@@ -217,7 +224,7 @@ def is_stale_exc(e):
 def execute(case):
     """case = (grp, content index, start node, [public ops]) -> trace lines."""
     grp, ci, node, ops, scripts, mutating = case
-    real = Runner(build_state(CONTENTS[ci], node))
+    real = Runner(build_state(CONTENTS[ci], node), variant=zlib.crc32(str(grp).encode()))
     lines = []
     first = True
     turn = []
@@ -230,7 +237,7 @@ def execute(case):
             try:
                 t = P.seq_from_abs([m for m in pre["abs"]])
                 t.refresh()
-                twin = Runner(t)
+                twin = Runner(t, variant=real.variant)
             except Exception:
                 twin = None
         # second twin: the object itself (deep copy) with both views brought up to date.  It keeps the object's own order
@@ -239,7 +246,7 @@ def execute(case):
         try:
             t2 = copy.deepcopy(real.seq)
             t2.refresh()
-            twin2 = Runner(t2)
+            twin2 = Runner(t2, variant=real.variant)
         except Exception:
             twin2 = None
         for f in fine:
